@@ -213,6 +213,98 @@ func vrReferrersAnnotations() string {
 	return ""
 }
 
+// mount (C16): the source repository of a cross-repository mount must be a name of the repository grammar
+func vrMountOutside() string {
+	tmp, err := os.MkdirTemp("", "vrmount")
+	if err != nil {
+		return ""
+	}
+	defer os.RemoveAll(tmp)
+	root := tmp + "/root"
+	outside := tmp + "/outside"
+	content := []byte("secret outside the registry root")
+	d := digest.Canonical.FromBytes(content)
+	_ = os.MkdirAll(outside+"/blobs/sha256", 0o755)
+	_ = os.MkdirAll(root, 0o755)
+	_ = os.WriteFile(outside+"/oci-layout", []byte(`{"imageLayoutVersion":"1.0.0"}`), 0o644)
+	_ = os.WriteFile(outside+"/index.json", []byte(`{"schemaVersion":2,"manifests":[]}`), 0o644)
+	_ = os.WriteFile(outside+"/blobs/sha256/"+d.Encoded(), content, 0o644)
+	tr := true
+	s := New(config.Config{Storage: config.ConfigStorage{StoreType: config.StoreDir, RootDir: root}, API: config.ConfigAPI{PushEnabled: &tr}})
+	defer s.Close()
+	r := vrDo(s, "POST", "/v2/repo/blobs/uploads/?mount="+d.String()+"&from=../outside", nil, nil)
+	if r.code == 201 {
+		g := vrDo(s, "GET", "/v2/repo/blobs/"+d.String(), nil, nil)
+		if g.code == 200 && string(g.body) == string(content) {
+			return "POST /v2/repo/blobs/uploads/?mount=<digest>&from=../outside copies a blob from a directory outside the configured root into the repository (201, then GET returns its content)"
+		}
+	}
+	return ""
+}
+
+// manifest push (C02, C04): a body longer than the limit is refused also without Content-Length; the media type must match the body
+func vrManifestPutLimits() string {
+	tr := true
+	s := New(config.Config{Storage: config.ConfigStorage{StoreType: config.StoreMem}, API: config.ConfigAPI{PushEnabled: &tr, Manifest: config.ConfigAPIManifest{Limit: 600}}})
+	defer s.Close()
+	conf := []byte(`{}`)
+	cd := vrPushBlob(s, "repo", conf)
+	m := types.Manifest{SchemaVersion: 2, MediaType: types.MediaTypeOCI1Manifest, Config: types.Descriptor{MediaType: types.MediaTypeOCI1ImageConfig, Digest: cd, Size: 2}, Layers: []types.Descriptor{}}
+	raw, _ := json.Marshal(m)
+	padded := append(append([]byte{}, raw...), bytes.Repeat([]byte(" "), 700-len(raw))...)
+	padded = append(padded, []byte("trailing bytes beyond the limit")...)
+	// unknown Content-Length
+	func() {
+		defer func() { _ = recover() }()
+	}()
+	req := httptest.NewRequest("PUT", "/v2/repo/manifests/big", io.NopCloser(bytes.NewReader(padded)))
+	req.ContentLength = -1
+	req.Header.Set("Content-Type", types.MediaTypeOCI1Manifest)
+	rec := httptest.NewRecorder()
+	s.ServeHTTP(rec, req)
+	if rec.Code == 201 {
+		g := vrDo(s, "GET", "/v2/repo/manifests/big", map[string]string{"Accept": types.MediaTypeOCI1Manifest}, nil)
+		return fmt.Sprintf("a manifest body of %d bytes (limit 600, unknown Content-Length) is acknowledged with 201 and stored as %d bytes", len(padded), len(g.body))
+	}
+	// body says image manifest, Content-Type says index
+	r := vrDo(s, "PUT", "/v2/repo/manifests/mismatch", map[string]string{"Content-Type": types.MediaTypeOCI1ManifestList}, raw)
+	if r.code == 201 {
+		return "an image manifest body (mediaType application/vnd.oci.image.manifest.v1+json) pushed with Content-Type application/vnd.oci.image.index.v1+json is acknowledged with 201"
+	}
+	return ""
+}
+
+// tag delete (C07): an artifact pushed by tag stays a referrer of its subject after the tag is deleted
+func vrTagDeleteKeepsReferrer() string {
+	tr := true
+	s := New(config.Config{Storage: config.ConfigStorage{StoreType: config.StoreMem}, API: config.ConfigAPI{DeleteEnabled: &tr, PushEnabled: &tr}})
+	defer s.Close()
+	sd, sraw := vrPushImage(s, "repo", "subject", "s")
+	subj := types.Descriptor{MediaType: types.MediaTypeOCI1Manifest, Digest: sd, Size: int64(len(sraw))}
+	conf := []byte(`{}`)
+	cd := vrPushBlob(s, "repo", conf)
+	m := types.Manifest{SchemaVersion: 2, MediaType: types.MediaTypeOCI1Manifest, ArtifactType: "application/vnd.example.sig",
+		Config: types.Descriptor{MediaType: types.MediaTypeOCI1Empty, Digest: cd, Size: 2}, Layers: []types.Descriptor{}, Subject: &subj}
+	raw, _ := json.Marshal(m)
+	ad := digest.Canonical.FromBytes(raw)
+	vrDo(s, "PUT", "/v2/repo/manifests/sig", map[string]string{"Content-Type": types.MediaTypeOCI1Manifest}, raw)
+	vrDo(s, "DELETE", "/v2/repo/manifests/sig", nil, nil)
+	g := vrDo(s, "GET", "/v2/repo/manifests/"+ad.String(), map[string]string{"Accept": types.MediaTypeOCI1Manifest}, nil)
+	r := vrDo(s, "GET", "/v2/repo/referrers/"+sd.String(), nil, nil)
+	idx := types.Index{}
+	_ = json.Unmarshal(r.body, &idx)
+	listed := false
+	for _, e := range idx.Manifests {
+		if e.Digest == ad {
+			listed = true
+		}
+	}
+	if g.code == 200 && !listed {
+		return "an artifact pushed under tag 'sig' is still present by digest after DELETE of the tag, but the referrers response of its subject no longer lists it"
+	}
+	return ""
+}
+
 func TestVerifReplay(t *testing.T) {
 	ob := os.Getenv("VERIF_OBLIGATION")
 	type probe struct {
@@ -223,6 +315,9 @@ func TestVerifReplay(t *testing.T) {
 		{"tagList", vrTagList},
 		{"manifestGet", vrManifestGetMissingBlob},
 		{"referrerAdd", vrReferrersAnnotations},
+		{"blobUploadMount", vrMountOutside},
+		{"manifestPut", vrManifestPutLimits},
+		{"manifestDelete", vrTagDeleteKeepsReferrer},
 	}
 	ran := 0
 	for _, p := range probes {
